@@ -77,12 +77,16 @@ AddFails(e)  == Chk("C15:AddRefusedWithTypeError", e.exc = "TypeError")
 WrapFails(e) == Chk("C15:LinearCannotBeWrapped", e.exc # "")
 CopyFails(e) == Chk("C15:WrapCopies", Len(e.aliased) = 0)
 
+\* a chain (re)starts at the first event of a trace and after an in-place edit of the object
+Restart(e) == e.n = 1 \/ ("reset" \in DOMAIN e /\ e.reset)
+\* an operation whose result is looked at while the chain stays on the operand
+Peek(e) == "peek" \in DOMAIN e /\ e.peek
 Init == l = 1 /\ orig = << >> /\ net = <<0, 0>> /\ cur = << >>
 Next ==
   /\ l <= Len(Log)
   /\ LET e  == Log[l]
-         o  == IF e.n = 1 THEN Abs(e.pre) ELSE orig
-         nt == IF e.n = 1 THEN <<0, 0>> ELSE net
+         o  == IF Restart(e) THEN Abs(e.pre) ELSE orig
+         nt == IF Restart(e) THEN <<0, 0>> ELSE net
          n  == Len(e.pre.seq)
          nt2 == IF n = 0 THEN nt
                 ELSE IF e.ev = "Rot" THEN <<nt[1], (nt[2] + (IF e.dir = "R" THEN e.k ELSE -e.k)) % n>>
@@ -96,9 +100,9 @@ Next ==
                  [] e.ev = "WrapLinear" -> WrapFails(e)
                  [] e.ev = "WrapCopy" -> CopyFails(e)
                  [] OTHER -> {"X:UnknownEvent"}
-         cont == IF e.n = 1 \/ cur = << >> THEN {} ELSE Chk("X:Continuity", e.pre.seq = cur)
+         cont == IF Restart(e) \/ cur = << >> THEN {} ELSE Chk("X:Continuity", e.pre.seq = cur)
      IN /\ Report(l, f \cup cont)
-        /\ orig' = o /\ net' = nt2
-        /\ cur' = IF e.ev \in {"Rot", "RevComp"} /\ e.exc = "" THEN e.post.seq ELSE e.pre.seq
+        /\ orig' = o /\ net' = IF Peek(e) THEN nt ELSE nt2
+        /\ cur' = IF e.ev \in {"Rot", "RevComp"} /\ e.exc = "" /\ ~Peek(e) THEN e.post.seq ELSE e.pre.seq
   /\ l' = l + 1
 =============================================================================
